@@ -1,0 +1,74 @@
+//go:build verif
+
+package main
+
+import (
+	"bufio"
+	"encoding/json"
+	"fmt"
+	"os"
+	"runtime"
+	"strings"
+	"testing"
+	"time"
+
+	"github.com/BondMachineHQ/BondMachine/pkg/bondmachine"
+	"github.com/BondMachineHQ/BondMachine/pkg/simbox"
+)
+
+// TestVerifFitnessWorkers is a verification hook (build tag "verif" only): it evaluates the tuning
+// tool's fitness function repeatedly for several -workers values on the machine and inputs given
+// by the usual flags, and prints the number of live goroutines before and after each batch, so that
+// a harness can tell whether an evaluation leaves workers behind. The test binary has to be
+// started without -test.* flags, because the tool parses its flags in init().
+func TestVerifFitnessWorkers(t *testing.T) {
+	data, err := os.ReadFile(*bondmachineFile)
+	if err != nil {
+		t.Fatal(err)
+	}
+	var bmj bondmachine.Bondmachine_json
+	if err := json.Unmarshal(data, &bmj); err != nil {
+		t.Fatal(err)
+	}
+	bm := (&bmj).Dejsoner()
+	bm.Init()
+
+	inputs := make([]record, 0)
+	file, err := os.Open(*inputsFile)
+	if err != nil {
+		t.Fatal(err)
+	}
+	defer file.Close()
+	scanner := bufio.NewScanner(file)
+	for scanner.Scan() {
+		var rec record
+		for _, field := range strings.Split(scanner.Text(), ",") {
+			rec = append(rec, strings.TrimSpace(field))
+		}
+		inputs = append(inputs, rec)
+	}
+
+	settle := func() int {
+		n := runtime.NumGoroutine()
+		for k := 0; k < 40; k++ {
+			time.Sleep(25 * time.Millisecond)
+			m := runtime.NumGoroutine()
+			if m == n && k > 4 {
+				break
+			}
+			n = m
+		}
+		return n
+	}
+
+	for _, w := range []int{4, 1, 0, -1} {
+		dist := simbox.DelayDistribution{1: 1}
+		fe := &FitnessEnv{Inputs: inputs, Outputs: inputs, LatencyDistribution: &dist, Workers: w, BM: bm, SimDelays: simbox.NewSimDelays()}
+		before := settle()
+		for k := 0; k < 8; k++ {
+			fe.FitnessFunction(simbox.NewSimDelays())
+		}
+		after := settle()
+		fmt.Printf("VERIF_FITNESS workers=%d evaluations=8 before=%d after=%d\n", w, before, after)
+	}
+}
